@@ -313,6 +313,7 @@ impl Shape {
     }
 }
 
+pub const RES_POOL: [Res; 12] = POOL;
 const POOL: [Res; 12] = [
     (0, 0), (1, 0), (2, 0), (3, 0), (0, 1), (1, 1), (2, 2), (3, 7), (0, 2), (1, 5), (2, 1), (3, 1),
 ];
